@@ -12,7 +12,9 @@ import (
 	"fmt"
 	"os"
 	"path/filepath"
+	"runtime"
 	"strings"
+	"sync/atomic"
 	"time"
 
 	zlint "github.com/zmap/zlint/v3"
@@ -167,3 +169,34 @@ func helperIndex() map[string][]helperUse {
 	helperMemo = out
 	return out
 }
+
+// ---------------------------------------------------------------- schedule perturbation for free-running clients
+
+var jitterCount, jitterFired uint64
+
+// installJitter: free-running clients under the race detector meet each other only where the machine
+// happens to put them. With the instrumented copy every function entry and every statement of the rules
+// and helpers is a place where the running goroutine may, by a seeded coin, give up its processor or sleep
+// for a few dozen microseconds: windows of a few instructions (between a miss under a read lock and the
+// write lock that follows, between a check and an act) become windows other goroutines can enter. The
+// perturbation is derived from the run's seed and a global site counter; which thread meets which site
+// first is still the machine's choice, so this part is seeded, not replayable (like the race batches).
+func installJitter(seed uint64, perMille uint64) {
+	hook := func(site string) {
+		n := atomic.AddUint64(&jitterCount, 1)
+		h := splitmix64(seed ^ (n * 0x9e3779b97f4a7c15))
+		if h%1000 >= perMille {
+			return
+		}
+		atomic.AddUint64(&jitterFired, 1)
+		if h&(1<<20) == 0 {
+			runtime.Gosched()
+		} else {
+			time.Sleep(time.Duration(5+(h>>24)%120) * time.Microsecond)
+		}
+	}
+	verifyield.Hook = hook
+	verifyield.SHook = hook
+}
+
+func jitterStats() (uint64, uint64) { return atomic.LoadUint64(&jitterCount), atomic.LoadUint64(&jitterFired) }
